@@ -4138,7 +4138,13 @@ impl PrimitiveValue {
     /// ```
     pub fn truncate(&mut self, limit: usize) {
         match self {
-            PrimitiveValue::Empty | PrimitiveValue::Str(_) => { /* no-op */ }
+            PrimitiveValue::Empty => { /* no-op */ }
+            PrimitiveValue::Str(_) => {
+                // a single string is one value item
+                if limit == 0 {
+                    *self = PrimitiveValue::Strs(C::new());
+                }
+            }
             PrimitiveValue::Strs(l) => l.truncate(limit),
             PrimitiveValue::Tags(l) => l.truncate(limit),
             PrimitiveValue::U8(l) => l.truncate(limit),
